@@ -438,6 +438,10 @@ theorem exceeded_spec {s s' : State} {id : Nat} {b : Backoffer} {cfg : Config} {
 
 def Cover (b : Backoffer) : Prop := ∀ p ∈ b.sleepMS, (cfgErr b.configs p.1).isSome = true
 
+/-- what holds of every back-offer as long as no merge happened: `configs` covers the kinds that slept, and the
+    ghost `tainted` is unset -/
+def MergeFree (b : Backoffer) : Prop := Cover b ∧ b.tainted = false
+
 theorem AMap.add_mem {m : AMap} {k : String} {d : Int} {p : String × Int} (h : p ∈ AMap.add m k d) :
     p ∈ m ∨ p.1 = k := by
   induction m with
@@ -477,47 +481,49 @@ theorem cfgErr_append_self (l : List (String × String)) (n e : String) : (cfgEr
     · simp
     · exact ih
 
-theorem Cover_sleptB {b : Backoffer} {cfg : Config} {f : Fn} {m sl : Int} (h : Cover b) :
-    Cover (sleptB b cfg f m sl) := by
+theorem Cover_sleptB {b : Backoffer} {cfg : Config} {f : Fn} {m sl : Int} (h : MergeFree b) :
+    MergeFree (sleptB b cfg f m sl) := by
+  refine ⟨?_, h.2⟩
   intro p hp
   simp only [sleptB] at hp ⊢
   rcases AMap.add_mem hp with hp | hp
-  · exact cfgErr_append_some _ (h p hp)
+  · exact cfgErr_append_some _ (h.1 p hp)
   · rw [hp]; exact cfgErr_append_self _ _ _
 
-def SCover (s : State) : Prop := ∀ b ∈ s.bs, Cover b
+def SCover (s : State) : Prop := ∀ b ∈ s.bs, MergeFree b
 
 def NoMerge : Op → Prop
   | .merge _ _ => False
   | _ => True
 
-theorem Cover_nil {b : Backoffer} (h : b.sleepMS = []) : Cover b := by
+theorem Cover_nil {b : Backoffer} (h : b.sleepMS = []) (ht : b.tainted = false) : MergeFree b := by
+  refine ⟨?_, ht⟩
   intro p hp; rw [h] at hp; simp at hp
 
 theorem step_SCover {s : State} (h : SCover s) (op : Op) (hop : NoMerge op) : SCover (step s op).1 := by
-  have push : ∀ {x : Backoffer}, Cover x → SCover (s.push x) := by
+  have push : ∀ {x : Backoffer}, MergeFree x → SCover (s.push x) := by
     intro x hx b hb
     rcases mem_push hb with hb | hb
     · exact h b hb
     · subst hb; exact hx
-  have set : ∀ {i : Nat} {x : Backoffer}, Cover x → SCover (s.setB i x) := by
+  have set : ∀ {i : Nat} {x : Backoffer}, MergeFree x → SCover (s.setB i x) := by
     intro i x hx b hb
     rcases mem_setB hb with hb | hb
     · exact h b hb
     · subst hb; exact hx
   cases op with
-  | newPlain n => exact push (Cover_nil rfl)
+  | newPlain n => exact push (Cover_nil rfl rfl)
   | newNil n =>
     simp only [step]
     split
-    · rename_i b hb; exact push (Cover_nil (by rw [applyWeight_eq hb]; rfl))
+    · rename_i b hb; exact push (Cover_nil (by rw [applyWeight_eq hb]; rfl) (by rw [applyWeight_eq hb]; rfl))
     · exact h
   | newVars n lf w =>
     simp only [step]
     split
-    · rename_i b hb; exact push (Cover_nil (by rw [applyWeight_eq hb]; rfl))
+    · rename_i b hb; exact push (Cover_nil (by rw [applyWeight_eq hb]; rfl) (by rw [applyWeight_eq hb]; rfl))
     · exact h
-  | newNoop => exact push (Cover_nil rfl)
+  | newNoop => exact push (Cover_nil rfl rfl)
   | backoff id cfg m sl e =>
     simp only [step]
     split
@@ -541,7 +547,7 @@ theorem step_SCover {s : State} (h : SCover s) (op : Op) (hop : NoMerge op) : SC
   | reset id =>
     simp only [step]
     split
-    · rename_i b hb; exact set (h b (live_some hb).2.2)
+    · rename_i b hb; exact set ⟨(h b (live_some hb).2.2).1, rfl⟩
     · exact h
   | resetMaxSleep id n =>
     simp only [step]
@@ -551,7 +557,7 @@ theorem step_SCover {s : State} (h : SCover s) (op : Op) (hop : NoMerge op) : SC
       · rename_i b' hb'
         refine set ?_
         rw [applyWeight_eq hb']
-        exact h b (live_some hb).2.2
+        exact ⟨(h b (live_some hb).2.2).1, rfl⟩
       · exact h
     · exact h
   | cancel tok =>
@@ -573,5 +579,402 @@ theorem run_SCover (ops : List Op) {s : State} (h : SCover s) (hops : ∀ op ∈
   | cons op r ih =>
     simp only [run, List.foldl_cons]
     exact ih (step_SCover h op (hops op (by simp))) (fun o ho => hops o (by simp [ho]))
+
+/-! ## parent chains -/
+
+/-- `t` is reached by the loop `for bo := par; bo != nil; bo = bo.parent` -/
+inductive AncP (bs : List Backoffer) (t : Nat) : Option Nat → Prop
+  | here : AncP bs t (some t)
+  | up {p : Nat} {b : Backoffer} : bs[p]? = some b → AncP bs t b.parent → AncP bs t (some p)
+
+/-- parents are older than their children -/
+def WF (bs : List Backoffer) : Prop := ∀ (i : Nat) (b : Backoffer) (p : Nat), bs[i]? = some b → b.parent = some p → p < i
+
+theorem ancestors_sound {bs : List Backoffer} {t : Nat} (fuel : Nat) (par : Option Nat)
+    (h : t ∈ ancestors bs fuel par) : AncP bs t par := by
+  induction fuel generalizing par with
+  | zero => simp [ancestors] at h
+  | succ k ih =>
+    cases par with
+    | none => simp [ancestors] at h
+    | some p =>
+      simp only [ancestors, List.mem_cons] at h
+      rcases h with h | h
+      · subst h; exact .here
+      · cases hb : bs[p]? with
+        | none => rw [hb] at h; cases k <;> simp [ancestors] at h
+        | some b => rw [hb] at h; exact .up hb (ih _ h)
+
+theorem ancestors_complete {bs : List Backoffer} {t : Nat} (hwf : WF bs) {par : Option Nat} (h : AncP bs t par) :
+    ∀ fuel, (∀ p, par = some p → p < fuel) → t ∈ ancestors bs fuel par := by
+  induction h with
+  | here =>
+    intro fuel hf
+    have := hf t rfl
+    cases fuel with
+    | zero => omega
+    | succ k => simp [ancestors]
+  | @up p b hb _ ih =>
+    intro fuel hf
+    have := hf p rfl
+    cases fuel with
+    | zero => omega
+    | succ k =>
+      simp only [ancestors, List.mem_cons, hb]
+      right
+      apply ih
+      intro q hq
+      have := hwf p b q hb hq
+      omega
+
+/-- with well-founded parents the fuel `bs.length` is enough: `ancestors` decides the Go loop exactly -/
+theorem ancestors_iff {bs : List Backoffer} (hwf : WF bs) {f : Nat} {fb : Backoffer} (hf : bs[f]? = some fb) (t : Nat) :
+    (ancestors bs bs.length fb.parent).contains t = true ↔ AncP bs t fb.parent := by
+  simp only [List.contains_eq_mem, decide_eq_true_eq]
+  constructor
+  · exact ancestors_sound _ _
+  · intro h
+    apply ancestors_complete hwf h
+    intro p hp
+    have := hwf f fb p hf hp
+    have : f < bs.length := by
+      have := List.getElem?_eq_some_iff.1 hf
+      exact this.1
+    omega
+
+theorem WF_push {bs : List Backoffer} {x : Backoffer} (h : WF bs) (hx : ∀ p, x.parent = some p → p < bs.length) :
+    WF (bs ++ [x]) := by
+  intro i b p hb hp
+  by_cases hi : i < bs.length
+  · rw [List.getElem?_append_left hi] at hb; exact h i b p hb hp
+  · have hi' : bs.length ≤ i := by omega
+    rw [List.getElem?_append_right hi'] at hb
+    have : i - bs.length = 0 := by
+      cases hk : i - bs.length with
+      | zero => rfl
+      | succ k => rw [hk] at hb; simp at hb
+    rw [this] at hb
+    simp at hb
+    subst hb
+    have := hx p hp
+    omega
+
+theorem WF_set {bs : List Backoffer} {i : Nat} {x b0 : Backoffer} (h : WF bs) (h0 : bs[i]? = some b0)
+    (hx : x.parent = b0.parent) : WF (bs.set i x) := by
+  intro j b p hb hp
+  rw [List.getElem?_set] at hb
+  split at hb
+  · rename_i hij
+    split at hb
+    · injection hb with hb; subst hb; subst hij; rw [hx] at hp; exact h i b0 p h0 hp
+    · contradiction
+  · exact h j b p hb hp
+
+theorem WF_set' {bs : List Backoffer} {i : Nat} {x : Backoffer} (h : WF bs)
+    (hx : ∀ b0, bs[i]? = some b0 → x.parent = b0.parent) : WF (bs.set i x) := by
+  cases h0 : bs[i]? with
+  | none =>
+    have : bs.length ≤ i := by simpa using h0
+    rw [List.set_eq_of_length_le this]; exact h
+  | some b0 => exact WF_set h h0 (hx b0 h0)
+
+theorem live_lt {s : State} {id : Nat} {b : Backoffer} (h : s.live id = some b) : id < s.bs.length :=
+  (List.getElem?_eq_some_iff.1 (live_some h).1).1
+
+theorem step_WF {s : State} (h : WF s.bs) (op : Op) : WF (step s op).1.bs := by
+  cases op with
+  | newPlain n => exact WF_push h (by intro p hp; simp [newBackoffer] at hp)
+  | newNil n =>
+    simp only [step]
+    split
+    · rename_i b hb
+      exact WF_push h (by intro p hp; rw [applyWeight_eq hb] at hp; simp [newBackoffer] at hp)
+    · exact h
+  | newVars n lf w =>
+    simp only [step]
+    split
+    · rename_i b hb
+      exact WF_push h (by intro p hp; rw [applyWeight_eq hb] at hp; simp [newBackoffer] at hp)
+    · exact h
+  | newNoop => exact WF_push h (by intro p hp; simp [newBackoffer] at hp)
+  | backoff id cfg m sl e =>
+    simp only [step]
+    split
+    · rename_i b hb
+      rcases backoff_cases s id b cfg m sl e with ⟨h1, _⟩ | ⟨f, _, _, _, _, _, h1, _⟩
+      · rw [h1]; exact h
+      · rw [h1]; exact WF_set h (live_some hb).1 rfl
+    · exact h
+  | clone id =>
+    simp only [step]
+    split
+    · rename_i b hb
+      refine WF_push h ?_
+      intro p hp
+      have := h id b p (live_some hb).1 hp
+      have := live_lt hb
+      omega
+    · exact h
+  | fork id =>
+    simp only [step]
+    split
+    · rename_i b hb
+      refine WF_push h ?_
+      intro p hp
+      have := live_lt hb
+      simp only [Option.some.injEq] at hp
+      omega
+    · exact h
+  | merge t f =>
+    simp only [step]
+    split
+    · rename_i b fb hb hfb
+      split
+      · refine WF_set' (WF_set h (live_some hb).1 rfl) ?_
+        intro b0 hb0
+        simp only [State.setB] at hb0
+        rw [List.getElem?_set] at hb0
+        split at hb0
+        · rename_i htf
+          subst htf
+          have hbf : some fb = some b := by rw [← hfb, ← hb]
+          injection hbf with hbf
+          subst hbf
+          split at hb0
+          · injection hb0 with hb0; subst hb0; rfl
+          · contradiction
+        · rw [(live_some hfb).1] at hb0
+          injection hb0 with hb0; subst hb0; rfl
+      · exact h
+    · exact h
+  | reset id =>
+    simp only [step]
+    split
+    · rename_i b hb; exact WF_set h (live_some hb).1 rfl
+    · exact h
+  | resetMaxSleep id n =>
+    simp only [step]
+    split
+    · rename_i b hb
+      split
+      · rename_i b' hb'
+        refine WF_set h (live_some hb).1 ?_
+        rw [applyWeight_eq hb']
+        rfl
+      · exact h
+    · exact h
+  | cancel tok =>
+    simp only [step]
+    split
+    · split <;> exact h
+    · exact h
+  | kill id sig =>
+    simp only [step]
+    split
+    · split
+      · split <;> exact h
+      · exact h
+    · exact h
+
+theorem run_WF (ops : List Op) {s : State} (h : WF s.bs) : WF (run s ops).bs := by
+  induction ops generalizing s with
+  | nil => exact h
+  | cons op r ih => simp only [run, List.foldl_cons]; exact ih (step_WF h op)
+
+theorem WF_init : WF init.bs := by intro i b p hb; simp [init] at hb
+
+/-! ## contexts never change and cancellation is permanent -/
+
+def CtxExt (s s' : State) : Prop :=
+  (∀ (id : Nat) (b : Backoffer), s.bs[id]? = some b → ∃ b', s'.bs[id]? = some b' ∧ b'.ctx = b.ctx) ∧
+  (∀ t, t ∈ s.cancelled → t ∈ s'.cancelled)
+
+theorem CtxExt.refl (s : State) : CtxExt s s := ⟨fun _ b h => ⟨b, h, rfl⟩, fun _ h => h⟩
+
+theorem CtxExt.trans {a b c : State} (h1 : CtxExt a b) (h2 : CtxExt b c) : CtxExt a c := by
+  refine ⟨?_, fun t h => h2.2 t (h1.2 t h)⟩
+  intro id x hx
+  obtain ⟨y, hy, hyc⟩ := h1.1 id x hx
+  obtain ⟨z, hz, hzc⟩ := h2.1 id y hy
+  exact ⟨z, hz, by rw [hzc, hyc]⟩
+
+theorem CtxExt_push (s : State) (x : Backoffer) : CtxExt s (s.push x) := by
+  refine ⟨?_, fun _ h => h⟩
+  intro id b hb
+  refine ⟨b, ?_, rfl⟩
+  have : id < s.bs.length := (List.getElem?_eq_some_iff.1 hb).1
+  simp only [State.push]
+  rw [List.getElem?_append_left this]; exact hb
+
+theorem CtxExt_setB (s : State) (i : Nat) (x : Backoffer) (hx : ∀ b0, s.bs[i]? = some b0 → x.ctx = b0.ctx) :
+    CtxExt s (s.setB i x) := by
+  refine ⟨?_, fun _ h => h⟩
+  intro id b hb
+  simp only [State.setB]
+  rw [List.getElem?_set]
+  split
+  · rename_i hij
+    subst hij
+    have : i < s.bs.length := (List.getElem?_eq_some_iff.1 hb).1
+    simp only [this, if_true]
+    exact ⟨x, rfl, hx b hb⟩
+  · exact ⟨b, hb, rfl⟩
+
+theorem step_CtxExt (s : State) (op : Op) : CtxExt s (step s op).1 := by
+  cases op with
+  | newPlain n => exact CtxExt_push _ _
+  | newNil n => simp only [step]; split <;> first | exact CtxExt_push _ _ | exact CtxExt.refl _
+  | newVars n lf w => simp only [step]; split <;> first | exact CtxExt_push _ _ | exact CtxExt.refl _
+  | newNoop => exact CtxExt_push _ _
+  | backoff id cfg m sl e =>
+    simp only [step]
+    split
+    · rename_i b hb
+      rcases backoff_cases s id b cfg m sl e with ⟨h1, _⟩ | ⟨f, _, _, _, _, _, h1, _⟩
+      · rw [h1]; exact CtxExt.refl _
+      · rw [h1]
+        refine CtxExt_setB _ _ _ ?_
+        intro b0 hb0
+        rw [(live_some hb).1] at hb0
+        injection hb0 with hb0; subst hb0; rfl
+    · exact CtxExt.refl _
+  | clone id => simp only [step]; split <;> first | exact CtxExt_push _ _ | exact CtxExt.refl _
+  | fork id => simp only [step]; split <;> first | exact CtxExt_push _ _ | exact CtxExt.refl _
+  | merge t f =>
+    simp only [step]
+    split
+    · rename_i b fb hb hfb
+      split
+      · refine CtxExt.trans (CtxExt_setB s t _ ?_) (CtxExt_setB _ f _ ?_)
+        · intro b0 hb0
+          rw [(live_some hb).1] at hb0
+          injection hb0 with hb0; subst hb0; rfl
+        · intro b0 hb0
+          simp only [State.setB] at hb0
+          rw [List.getElem?_set] at hb0
+          split at hb0
+          · rename_i htf
+            subst htf
+            have hbf : some fb = some b := by rw [← hfb, ← hb]
+            injection hbf with hbf
+            subst hbf
+            split at hb0
+            · injection hb0 with hb0; subst hb0; rfl
+            · contradiction
+          · rw [(live_some hfb).1] at hb0
+            injection hb0 with hb0; subst hb0; rfl
+      · exact CtxExt.refl _
+    · exact CtxExt.refl _
+  | reset id =>
+    simp only [step]
+    split
+    · rename_i b hb
+      refine CtxExt_setB _ _ _ ?_
+      intro b0 hb0
+      rw [(live_some hb).1] at hb0
+      injection hb0 with hb0; subst hb0; rfl
+    · exact CtxExt.refl _
+  | resetMaxSleep id n =>
+    simp only [step]
+    split
+    · rename_i b hb
+      split
+      · rename_i b' hb'
+        refine CtxExt_setB _ _ _ ?_
+        intro b0 hb0
+        rw [(live_some hb).1] at hb0
+        injection hb0 with hb0; subst hb0
+        rw [applyWeight_eq hb']; rfl
+      · exact CtxExt.refl _
+    · exact CtxExt.refl _
+  | cancel tok =>
+    simp only [step]
+    split
+    · split
+      · exact ⟨fun _ b h => ⟨b, h, rfl⟩, fun t h => List.mem_cons_of_mem _ h⟩
+      · exact CtxExt.refl _
+    · exact CtxExt.refl _
+  | kill id sig =>
+    simp only [step]
+    split
+    · split
+      · split
+        · exact ⟨fun _ b h => ⟨b, h, rfl⟩, fun _ h => h⟩
+        · exact CtxExt.refl _
+      · exact CtxExt.refl _
+    · exact CtxExt.refl _
+
+theorem run_CtxExt (ops : List Op) (s : State) : CtxExt s (run s ops) := by
+  induction ops generalizing s with
+  | nil => exact CtxExt.refl _
+  | cons op r ih => simp only [run, List.foldl_cons]; exact CtxExt.trans (step_CtxExt s op) (ih _)
+
+theorem isDone_mono {s s' : State} {b b' : Backoffer} (hc : b'.ctx = b.ctx)
+    (hs : ∀ t, t ∈ s.cancelled → t ∈ s'.cancelled) (h : isDone s b = true) : isDone s' b' = true := by
+  simp only [isDone, List.any_eq_true, List.contains_eq_mem, decide_eq_true_eq] at h ⊢
+  obtain ⟨t, ht, hm⟩ := h
+  exact ⟨t, by rw [hc]; exact ht, hs t hm⟩
+
+/-! ## a sleeping call, spelled out -/
+
+theorem slept_spec {s s' : State} {id : Nat} {b : Backoffer} {cfg : Config} {m sl : Int} {e : String}
+    {real base : Int} {att : Nat}
+    (h : backoff s id b cfg m sl e = (s', .slept real base att) ∨
+         ∃ sig, backoff s id b cfg m sl e = (s', .killedAfter sig real base att)) :
+    ∃ f, effFn b cfg = some f ∧ sleepAllowed f sl = true ∧ isDone s b = false ∧ b.noop = false ∧
+      overBudget b cfg.name = false ∧ s' = s.setB id (sleptB b cfg f m sl) ∧
+      real = realSleep m sl ∧ base = f.base ∧ att = f.attempts := by
+  have h1 : (backoff s id b cfg m sl e).1 = s' := by rcases h with h | ⟨_, h⟩ <;> rw [h]
+  have h2 : (backoff s id b cfg m sl e).2 = .slept real base att ∨
+      ∃ sig, (backoff s id b cfg m sl e).2 = .killedAfter sig real base att := by
+    rcases h with h | ⟨sig, h⟩
+    · left; rw [h]
+    · right; exact ⟨sig, by rw [h]⟩
+  rcases backoff_cases s id b cfg m sl e with ⟨_, hc⟩ | ⟨f, hd, hn, ho, hf, ha, hs, hc⟩
+  · exfalso
+    rcases hc with ⟨hc, _⟩ | ⟨hc, _⟩ | ⟨hc, _⟩ | ⟨hc, _⟩
+    · rcases h2 with h2 | ⟨_, h2⟩ <;> (rw [hc] at h2; contradiction)
+    · rcases h2 with h2 | ⟨_, h2⟩ <;> (rw [hc] at h2; contradiction)
+    · rcases hc with ⟨hc, _⟩ | hc <;> rcases h2 with h2 | ⟨_, h2⟩ <;> (rw [hc] at h2; contradiction)
+    · rcases hc with hc | hc <;> rcases h2 with h2 | ⟨_, h2⟩ <;> (rw [hc] at h2; contradiction)
+  · refine ⟨f, hf, ha, hd, hn, ho, by rw [← h1, hs], ?_⟩
+    rcases hc with ⟨hc, _⟩ | ⟨sig, hc, _⟩ <;> rcases h2 with h2 | ⟨sig', h2⟩ <;> rw [hc] at h2 <;>
+      first | contradiction | (simp only [Out.slept.injEq, Out.killedAfter.injEq] at h2; omega)
+
+theorem effFn_fresh {b : Backoffer} {cfg : Config} {f : Fn} (h : effFn b cfg = some f)
+    (hn : fnLookup b.fns cfg.name = none) : f.cap = cfg.cap ∧ f.jitter = cfg.jitter ∧ f.attempts = 0 := by
+  unfold effFn at h
+  rw [hn] at h
+  simp only at h
+  split at h
+  · split at h
+    · injection h with h; subst h; simp [mkFn]
+    · contradiction
+  · injection h with h; subst h; simp [mkFn]
+
+theorem table_cap_le {c : Config} (h : c ∈ table) : c.cap ≤ tableMaxCap := by
+  have key : ∀ (l : List Config) (a : Int), a ≤ l.foldl (fun a c => max a c.cap) a ∧
+      ∀ c ∈ l, c.cap ≤ l.foldl (fun a c => max a c.cap) a := by
+    intro l
+    induction l with
+    | nil => intro a; simp
+    | cons q r ih =>
+      intro a
+      simp only [List.foldl_cons]
+      have := ih (max a q.cap)
+      refine ⟨by omega, ?_⟩
+      intro p hp
+      rcases List.mem_cons.1 hp with h | h
+      · subst h; omega
+      · exact this.2 p h
+  exact (key table 0).2 c h
+
+theorem tableMaxCap_nonneg : 0 ≤ tableMaxCap := by
+  have key : ∀ (l : List Config) (a : Int), a ≤ l.foldl (fun a c => max a c.cap) a := by
+    intro l
+    induction l with
+    | nil => intro a; simp
+    | cons q r ih => intro a; simp only [List.foldl_cons]; have := ih (max a q.cap); omega
+  exact key table 0
 
 end CGV.Backoff
